@@ -70,6 +70,9 @@ def build_contract():
     loopy = [("PUSH", 0), ("LABEL", "lh"), ("PUSH", 4), "CALLDATALOAD", "DUP2", "LT", ("PUSHL", "lb"), "JUMPI",
              ("PUSH", 3), "SWAP1", "LT", ("PUSHL", "lok"), "JUMPI"] + panic(1) + [("LABEL", "lok"), "STOP", ("LABEL", "lb"), ("PUSH", 1), "ADD", ("PUSHL", "lh"), "JUMP"]
     test_fns.append(Fn("check_loopy(uint256)", loopy))
+    # what a test learns about the symbol of the post-setUp state (slot 3) stays in that test
+    test_fns.append(Fn("check_eq_a()", [("PUSH", 64), ("PUSH", 3), "SLOAD", "EQ", "ISZERO", ("PUSHL", "ne"), "JUMPI", "STOP", ("LABEL", "ne"), "STOP"]))
+    test_fns.append(Fn("check_ret_b()", [("PUSH", 3), "SLOAD", ("PUSH", 0), "RETURN"]))
     test_fns.append(Fn("invariant_a()", _assert(s1_is_1, "ia") + ["STOP"]))
     test_fns.append(Fn("invariant_b()", _assert(s1_is_1, "ib1") + _assert(s0_is_7, "ib0") + ["STOP"]))
     c = Contract("IsoT", test_fns, data=[("MARK", "tinit"), ("RAW", tinit), ("MARK", "tiny"), ("RAW", tiny), ("MARK", "c1"), ("RAW", c1), ("MARK", "c2"), ("RAW", c2)])
@@ -116,7 +119,7 @@ def run(chk: Check, tier: str):
         # histories in which the second test reads what the first one writes are always replayed
         kinds = ["storage", "transient", "balance", "code", "time"]
         conflicts = {(f"write_{k}", f"read_{k}") for k in kinds} | {(f"write_{k}", f"write_{k}") for k in kinds} | \
-                    {("annotated", "loopy"), ("loopy", "annotated"), ("loopy", "loopy"), ("alias_a", "alias_b"), ("alias_b", "alias_b"), ("alias_b", "alias_a"), ("inv_a", "inv_b"), ("inv_b", "inv_a"), ("write_storage", "inv_b")}
+                    {("eq_a", "ret_b"), ("ret_b", "eq_a"), ("ret_b", "ret_b"), ("annotated", "loopy"), ("loopy", "annotated"), ("loopy", "loopy"), ("alias_a", "alias_b"), ("alias_b", "alias_b"), ("alias_b", "alias_a"), ("inv_a", "inv_b"), ("inv_b", "inv_a"), ("write_storage", "inv_b")}
         must = [h for h in hists if len(h) == 2 and (h[0]["test"], h[1]["test"]) in conflicts]
         if len(must) != len(conflicts):
             raise MachineryError(f"TestRun.tla did not enumerate every conflicting pair: {len(must)} of {len(conflicts)}")
@@ -137,8 +140,9 @@ def run(chk: Check, tier: str):
             chk.count("traces_validated_against_impl")
             chk.nontrivial(tuple(order))
             for e, res in zip(h, out.results):
-                want = 0 if e["result"] == "PASS" else 1
-                if res.exitcode != want:
+                # (a test the model calls FAIL may also end as ERROR - e.g. a path halmos cannot execute symbolically)
+                ok = res.exitcode == 0 if e["result"] == "PASS" else res.exitcode != 0
+                if not ok:
                     chk.violation(f"order-dependent:{'>'.join(order)}:{e['test']}",
                                   f"tests run in the order {order}: {e['test']} ends with exit code {res.exitcode}, TestRun.tla says {e['result']} (every test starts from the post-setUp state)",
                                   {"order": order, "halmos_output": (out.stdout + out.logs)[-1500:]})
@@ -168,7 +172,7 @@ def run(chk: Check, tier: str):
     finally:
         cleanup(work)
     chk.cov["rule"] = (
-        "all orders with repetition of <= 2 (quick: all of length 1, every writer-then-reader pair, 30 sampled others of length 2) / <= 3 (thorough) of 16 tests "
+        "all orders with repetition of <= 2 (quick: all of length 1, every writer-then-reader pair, 30 sampled others of length 2) / <= 3 (thorough) of 18 tests "
         "(writers and readers of storage, transient storage, a balance, created code, block timestamp; two tests calling the symbolic address "
         "chosen by setUpSymbolic(address) (the per-path alias cache); a test with a function-level `@custom:halmos --loop 4` annotation and a test whose verdict depends on the loop bound; two invariant tests sharing the frontier cache), enumerated by TLC from TestRun.tla and replayed through one run_contract call each; "
         "per test the exit code must equal the model's and the normalised result must be the same in every history"
